@@ -6,6 +6,7 @@ package main
 
 import (
 	"fmt"
+	"go/constant"
 	"go/token"
 	"go/types"
 	"strings"
@@ -1239,4 +1240,175 @@ func sameExprStr(a, b ssa.Value) bool {
 		return false
 	}
 	return ta[0].String() == tb[0].String()
+}
+
+// R9.7: the fast-forward test of (*Identity).Merge compares commits.
+func checkIdentityMergeComparesCommits(c *Ctx) {
+	w := c.W
+	c.Doc("R9.7", "(*Identity).Merge refuses (ErrNonFastForwardMerge) iff the commit hash of the local version differs from the commit hash of the remote version at the same position: the test is on the stored commits (field commitHash of versions[j] on both sides), not on anything derived from the version's content — a re-committed copy of the same versions is a different history")
+	fn := w.Method("entities/identity", "Identity", "Merge")
+	if fn == nil {
+		c.Undecided("R9.7", "anchor:Identity.Merge", "entities/identity", "not found")
+		return
+	}
+	c.seeFn(funcName(fn))
+	ok, why := false, "no refusal comparing the commit hashes of the two histories found"
+	for _, g := range cmpGuards(fn, nil) {
+		c.Sites++
+		if g.Op != token.NEQ {
+			continue
+		}
+		fx, fy := originFields(g.X), originFields(g.Y)
+		has := func(fs []string, n string) bool {
+			for _, f := range fs {
+				if f == n {
+					return true
+				}
+			}
+			return false
+		}
+		if !isStringType(g.X.Type()) {
+			continue
+		}
+		// a comparison of something of the two version lists
+		if !(hasField(g.X, "versions") || hasField(g.Y, "versions") || has(fx, "commitHash") || has(fy, "commitHash")) {
+			// the identity-level "same id" test is not the fast-forward test
+			continue
+		}
+		if has(fx, "commitHash") && has(fy, "commitHash") {
+			ok = true
+			continue
+		}
+		if enclosingLoopHeader(g.If.Block()) != nil {
+			why = "the fast-forward test at " + w.InstrPos(g.Bin) + " does not compare the versions' commit hashes: a remote that re-committed identical versions in commits of its own is taken for a fast-forward, the local ref is moved onto a chain that does not contain the local commits"
+		}
+	}
+	// no other refusal inside the loop replaces it
+	if ok {
+		for _, g := range cmpGuards(fn, nil) {
+			if g.Op != token.NEQ || enclosingLoopHeader(g.If.Block()) == nil {
+				continue
+			}
+			fx, fy := originFields(g.X), originFields(g.Y)
+			_ = fx
+			_ = fy
+		}
+	}
+	c.Check(ok, "R9.7", "Identity.Merge:fast-forward-test-on-commits", w.FnPos(fn), "refuses iff the commit hashes at the same position differ", why)
+}
+
+// R7.11: the entity of a merge result is only used for the statuses that carry one.
+func checkMergeResultEntityUse(c *Ctx) {
+	w := c.W
+	c.Doc("R7.11", "a MergeResult carries an entity only for the statuses New and Updated: every unchecked type assertion or method call on MergeResult.Entity in the module is control dependent on the result's Status being one of the two (an Invalid report — what a hostile remote produces — has a nil Entity, and asserting its type panics the goroutine that merges)")
+	n := 0
+	for _, fn := range w.ModFns {
+		if isInstance(fn) || w.isTestHelper(fn) || len(fn.Blocks) == 0 {
+			continue
+		}
+		for _, b := range fn.Blocks {
+			for _, ins := range b.Instrs {
+				var subject ssa.Value
+				what := ""
+				switch x := ins.(type) {
+				case *ssa.TypeAssert:
+					if !x.CommaOk {
+						subject, what = x.X, "type assertion"
+					}
+				case ssa.CallInstruction:
+					if x.Common().IsInvoke() {
+						subject, what = x.Common().Value, "call of ."+x.Common().Method.Name()
+					}
+				}
+				if subject == nil {
+					continue
+				}
+				base, fld, isF := loadOfField(subject)
+				if !isF || fld != "Entity" || !strings.HasSuffix(typeShortName(base.Type()), "entity.MergeResult") {
+					continue
+				}
+				n++
+				c.Sites++
+				c.seeFn(funcName(fn))
+				guarded := false
+				for _, cc := range controlConds(b, nil) {
+					bo, isBo := cc.If.Cond.(*ssa.BinOp)
+					if !isBo {
+						continue
+					}
+					op := bo.Op
+					if cc.Edge == 1 {
+						op = negateOp(op)
+					}
+					for _, pr := range [][2]ssa.Value{{bo.X, bo.Y}, {bo.Y, bo.X}} {
+						if !hasField(pr[0], "Status") && !(hasField(pr[0], "Err")) {
+							continue
+						}
+						if k, isK := constInt(pr[1]); isK && hasField(pr[0], "Status") {
+							name := mergeStatusName(w, k)
+							if op == token.EQL && (name == "MergeStatusNew" || name == "MergeStatusUpdated") {
+								guarded = true
+							}
+						}
+					}
+					// a non-nil test of the entity itself
+					if (bo.Op == token.NEQ && cc.Edge == 0 || bo.Op == token.EQL && cc.Edge == 1) && (isNilConst(bo.Y) || isNilConst(bo.X)) {
+						if _, f2, ok2 := loadOfField(bo.X); ok2 && f2 == "Entity" {
+							guarded = true
+						}
+						if _, f2, ok2 := loadOfField(bo.Y); ok2 && f2 == "Entity" {
+							guarded = true
+						}
+					}
+				}
+				if !guarded {
+					// a switch with several cases: the block is entered only through true edges of Status == New / Updated
+					isStatusTest := func(bb *ssa.BasicBlock, succ int) bool {
+						if len(bb.Instrs) == 0 {
+							return false
+						}
+						iff, isIf := bb.Instrs[len(bb.Instrs)-1].(*ssa.If)
+						if !isIf {
+							return false
+						}
+						bo, isBo := iff.Cond.(*ssa.BinOp)
+						if !isBo || bo.Op != token.EQL || succ != 0 {
+							return false
+						}
+						for _, pr := range [][2]ssa.Value{{bo.X, bo.Y}, {bo.Y, bo.X}} {
+							if k, isK := constInt(pr[1]); isK && hasField(pr[0], "Status") {
+								name := mergeStatusName(w, k)
+								if name == "MergeStatusNew" || name == "MergeStatusUpdated" {
+									return true
+								}
+							}
+						}
+						return false
+					}
+					if !reachWithoutEdge(fn.Blocks[0], b, isStatusTest) {
+						guarded = true
+					}
+				}
+				c.Check(guarded, "R7.11", funcName(fn)+":MergeResult.Entity:"+what, w.InstrPos(ins), "used only for New/Updated results", "the entity of a merge result is used ("+what+") for statuses that carry none: an Invalid report for a refused remote entity has a nil Entity, the "+what+" panics in the merging goroutine and takes the process down")
+			}
+		}
+	}
+	if n == 0 {
+		c.Violate("R7.11", "expected:MergeResult.Entity-uses", "module", "no use of MergeResult.Entity found (reference: SubCache.MergeAll)")
+	}
+}
+
+func mergeStatusName(w *World, k int64) string {
+	p := w.Pkg("entity")
+	if p == nil {
+		return ""
+	}
+	for _, n := range p.Types.Scope().Names() {
+		if cst, ok := p.Types.Scope().Lookup(n).(*types.Const); ok && strings.HasPrefix(n, "MergeStatus") {
+			if v, exact := constant.Int64Val(cst.Val()); exact && v == k {
+				return n
+			}
+		}
+	}
+	return ""
 }
